@@ -341,7 +341,9 @@ class GridInterp:
         pts = list(points)
         vals = _flat(values)
         if len(pts) != len(vals):
-            raise ValueError("different number of values and points")  # as scipy does
+            e = ValueError("different number of values and points")  # as scipy does
+            e._contract_model = True  # part of the modelled library's behaviour, not a harness failure
+            raise e
         if not (_has_sym(pts) or _has_sym(vals)):
             from scipy.interpolate import LinearNDInterpolator as L
 
